@@ -19,3 +19,20 @@ Definition ev_step (keep_latch : bool) (faulted : bool) (s : ev) (o : ev_op) : e
   | EOther => s
   end.
 Definition ev_run (keep : bool) (s : ev) (ops : list ev_op) : ev := fold_left (ev_step keep false) ops s.
+
+(* Periodic (INTERVAL) task bookkeeping: TaskState.last_run against the resource clock.  A cycle at clock value [now] runs the
+   task when a whole interval has elapsed since last_run (elapsed may be negative when last_run lies in the future: the task
+   then does not run); a restart re-creates the task state at the restarted clock, i.e. last_run = 0, and re-initialises the
+   (non-retained) activation counter.  [keep_last] = a restart that rewinds the clock but keeps last_run (not the code). *)
+Record per := { p_last : Z; p_count : Z }.
+Definition per_fresh : per := {| p_last := 0; p_count := 0 |}.
+Definition per_step (keep_last : bool) (interval : Z) (faulted : bool) (now : Z) (s : per) (o : ev_op) : per :=
+  match o with
+  | ECycle => if faulted then s
+              else if (0 <? interval) && (interval <=? now - p_last s) then {| p_last := now; p_count := p_count s + 1 |} else s
+  | ERestart => {| p_last := if keep_last then p_last s else 0; p_count := 0 |}
+  | ESetTrig _ | EOther => s
+  end.
+(* a trace after the restart: (faulted before the operation, clock after it, operation) *)
+Definition per_run (keep : bool) (interval : Z) (s : per) (tr : list (bool * Z * ev_op)) : per :=
+  fold_left (fun s x => per_step keep interval (fst (fst x)) (snd (fst x)) s (snd x)) tr s.
